@@ -178,6 +178,23 @@ def integral_clause(m):
     return worst
 
 
+def cancellation_ratio(m):
+    """pattern maximum of the point-moment sum relative to the sum of the magnitudes of the current moments: 1 for a short
+    straight wire seen broadside, small when the far field is what is left after the moments cancel (small closed loops,
+    helices and folded structures much shorter than a wavelength)"""
+    gm = 0.0
+    for th in (10.0, 45.0, 80.0, 90.0) if not m.media else (10.0, 45.0, 80.0):
+        for ph in (0.0, 60.0, 200.0):
+            gp = point_G(m, th, ph)
+            t, p = math.radians(th), math.radians(ph)
+            that = np.array([math.cos(t) * math.cos(p), math.cos(t) * math.sin(p), -math.sin(t)])
+            phat = np.array([-math.sin(p), math.cos(p), 0.0])
+            gm = max(gm, abs(np.dot(gp, that)), abs(np.dot(gp, phat)))
+    tot = sum(abs(m.current[pu.idx]) * m.w * sum(float(pu.segs[h].seg_len) / 2 for h in (0, 1) if not pu.ground[h]) for pu in m.pulses)
+    tot *= (2 if m.media else 1)
+    return float(gm / tot) if tot else 1.0
+
+
 def integral_bad(m, ant):
     """the 2 % clause inside its domain (every segment at most 1/18 wavelength); (text or None, deviation or None)"""
     if max(float(sg.seg_len) for g in m.geo for sg in g.segments) > ant['lam'] / 18 * 1.001:
@@ -196,7 +213,11 @@ def replay(rp):
     m = antgen.build(rp['ant'])
     antgen.pick_sources(rng, m)
     m.compute()
-    bad = property_on_impl(m) or integral_bad(m, rp['ant'])[0] or big_request_clause(m)
+    ibad = integral_bad(m, rp['ant'])[0]
+    if ibad and cancellation_ratio(m) < 0.2:
+        print('replay: in the known-finding class exact-integral-cancelling-currents:', ibad)
+        ibad = None
+    bad = property_on_impl(m) or ibad or big_request_clause(m)
     print('replay ->', bad or 'property holds')
     return 1 if bad else 0
 
@@ -235,8 +256,16 @@ def run(ck):
             viol.append(dict(kind='far', ant=ant, src_seed=ss, observed=bad))
         ib, w = integral_bad(m, ant)
         if w is not None:
-            worst_int = max(worst_int, w)
             ck.count('integral_clause_cases')
+            if cancellation_ratio(m) < 0.2:
+                # known finding: the far field of this structure is the small remainder of cancelling moments
+                ck.count('integral_clause_cancelling_class')
+                if ib:
+                    ck.report_known('exact-integral-cancelling-currents',
+                                    'exact-integral-cancelling-currents: %s (%s, pattern maximum %.2f of the moment sum)' % (ib, ant['family'], cancellation_ratio(m)))
+                ib = None
+            else:
+                worst_int = max(worst_int, w)
         if ib:
             viol.append(dict(kind='far', ant=ant, src_seed=ss, observed=ib))
     ck.stats['disagreements'] = len(dis)
